@@ -12,6 +12,7 @@ open Earverif.Ieee
 def powOk (b : Nat) (f : Nat) : Bool :=
   encode b (decode b (2 ^ f)) == 2 ^ f && encode b (decode b (-(2 ^ f))) == -(2 ^ f)
   && decide (decode b (2 ^ f) ≤ 1)
+  && rn53 (decode b (2 ^ f) * (scale b : Rat)) == ((2 ^ f : Int) : Rat)
 
 theorem pow_table16 : ∀ f < 15, powOk 16 f = true := by decide +kernel
 theorem pow_table24 : ∀ f < 23, powOk 24 f = true := by decide +kernel
@@ -29,6 +30,7 @@ def specialOk (b : Nat) : Bool :=
   && decode b (scale b) == 1
   && decode b (-(scale b)) == -1
   && rn53 (scale b : Rat) == (scale b : Rat)
+  && rn53 (decode b (scale b) * (scale b : Rat)) == (scale b : Rat)
 
 theorem special_table : specialOk 16 = true ∧ specialOk 24 = true ∧ specialOk 32 = true := by
   decide +kernel
